@@ -162,6 +162,9 @@ pub fn pattern(fill: u32, i: usize) -> u8 {
 	if fill == 0 {
 		return 0;
 	}
+	if fill == 0xFFFF_FFFF {
+		return 0xFF; // all ones: every dword of the fill carries in a 32-bit end-around-carry sum
+	}
 	let x = ((i as u64 + fill as u64).wrapping_mul(0x9E37_79B1)) & 0xFFFF_FFFF;
 	(x >> 24) as u8
 }
